@@ -479,6 +479,14 @@ def render_signature(
     return "\n".join(rendered_multi_lines)
 
 
+def _strip_module_prefixes(s: str, modules: Iterable[str]) -> str:
+    # Strip a module prefix only where it starts a dotted name (not inside `my.utils.B` or
+    # `barfoo.Baz` when stripping `utils` / `foo`), longest module first.
+    for module in sorted(modules, key=len, reverse=True):
+        s = re.sub(r"(?<![\w.])" + re.escape(module) + r"\.", "", s)
+    return s
+
+
 class AttributeStub(Stub):
     def __init__(
         self,
@@ -488,8 +496,9 @@ class AttributeStub(Stub):
         self.name = name
         self.typ = typ
 
-    def render(self, prefix: str = "") -> str:
-        return f"{prefix}{self.name}: {render_annotation(self.typ)}"
+    def render(self, prefix: str = "", strip_modules: Iterable[str] = ()) -> str:
+        rendered = _strip_module_prefixes(render_annotation(self.typ), strip_modules)
+        return f"{prefix}{self.name}: {rendered}"
 
     def __repr__(self) -> str:
         return f"AttributeStub({self.name}, {self.typ})"
@@ -518,10 +527,7 @@ class FunctionStub(Stub):
         s += render_signature(self.signature, 120 - len(s), prefix) + ": ..."
         # Yes, this is a horrible hack, but inspect.py gives us no way to
         # specify the function that should be used to format annotations.
-        # Strip a module prefix only where it starts a dotted name (not inside `my.utils.B` or
-        # `barfoo.Baz` when stripping `utils` / `foo`), longest module first.
-        for module in sorted(self.strip_modules, key=len, reverse=True):
-            s = re.sub(r"(?<![\w.])" + re.escape(module) + r"\.", "", s)
+        s = _strip_module_prefixes(s, self.strip_modules)
         if self.kind == FunctionKind.CLASS:
             s = prefix + "@classmethod\n" + s
         elif self.kind == FunctionKind.STATIC:
@@ -555,11 +561,11 @@ class ClassStub(Stub):
         if function_stubs is not None:
             self.function_stubs = {stub.name: stub for stub in function_stubs}
 
-    def render(self) -> str:
+    def render(self, strip_modules: Iterable[str] = ()) -> str:
         parts = [
             f"class {self.name}:",
             *[
-                stub.render(prefix="    ")
+                stub.render(prefix="    ", strip_modules=strip_modules)
                 for stub in sorted(self.attribute_stubs, key=lambda stub: stub.name)
             ],
             *[
@@ -692,10 +698,18 @@ class ModuleStub(Stub):
         parts = []
         if self.imports_stub.imports:
             parts.append(self.imports_stub.render())
+        # The fields of the generated TypedDict classes are rendered like signatures: with the
+        # prefixes of the imported modules (and of this module) stripped.
+        strip_modules: Set[str] = set()
+        for func_stub in self.function_stubs.values():
+            strip_modules.update(func_stub.strip_modules)
+        for class_stub in self.class_stubs.values():
+            for func_stub in class_stub.function_stubs.values():
+                strip_modules.update(func_stub.strip_modules)
         for typed_dict_class_stub in sorted(
             self.typed_dict_class_stubs, key=lambda s: s.name
         ):
-            parts.append(typed_dict_class_stub.render())
+            parts.append(typed_dict_class_stub.render(strip_modules))
         for func_stub in sorted(self.function_stubs.values(), key=lambda s: s.name):
             parts.append(func_stub.render())
         for class_stub in sorted(self.class_stubs.values(), key=lambda s: s.name):
@@ -855,9 +869,12 @@ def build_module_stubs(entries: Iterable[FunctionDefinition]) -> Dict[str, Modul
             mod_stubs[entry.module] = ModuleStub()
         mod_stub = mod_stubs[entry.module]
         imports = get_imports_for_signature(entry.signature)
-        # Import TypedDict, if needed.
+        # Import TypedDict, if needed, and whatever the fields of the generated classes refer to.
         if entry.typed_dict_class_stubs:
             imports["mypy_extensions"].add("TypedDict")
+            for typed_dict_class_stub in entry.typed_dict_class_stubs:
+                for attribute_stub in typed_dict_class_stub.attribute_stubs:
+                    imports.merge(get_imports_for_annotation(attribute_stub.typ))
         func_stub = FunctionStub(
             name, entry.signature, entry.kind, list(imports.keys()), entry.is_async
         )
